@@ -13,6 +13,7 @@ mod gen;
 mod props;
 mod props2;
 mod rec;
+mod steps;
 
 use serde_json::json;
 use std::path::PathBuf;
